@@ -17,16 +17,16 @@ theorem Ty.beq_eq : (a b : Ty) → Ty.beq a b = true → a = b
     simp only [Ty.beq, Bool.and_eq_true, beq_iff_eq] at h; rw [h.1, Ty.beq_eq a b h.2]
   | .struct x ms, .struct y ns, h => by
     simp only [Ty.beq, Bool.and_eq_true, beq_iff_eq] at h; rw [h.1, Ms.beq_eq ms ns h.2]
-  | .union d bs, .union d' bs', h => by
-    simp only [Ty.beq, Bool.and_eq_true, beq_iff_eq] at h; rw [h.1, Bs.beq_eq bs bs' h.2]
-  | .prim _, .str, h | .prim _, .wstr, h | .prim _, .enum _ _ _, h | .prim _, .seq _, h | .prim _, .arr _ _, h | .prim _, .struct _ _, h | .prim _, .union _ _, h => by simp [Ty.beq] at h
-  | .str, .prim _, h | .str, .wstr, h | .str, .enum _ _ _, h | .str, .seq _, h | .str, .arr _ _, h | .str, .struct _ _, h | .str, .union _ _, h => by simp [Ty.beq] at h
-  | .wstr, .prim _, h | .wstr, .str, h | .wstr, .enum _ _ _, h | .wstr, .seq _, h | .wstr, .arr _ _, h | .wstr, .struct _ _, h | .wstr, .union _ _, h => by simp [Ty.beq] at h
-  | .enum _ _ _, .prim _, h | .enum _ _ _, .str, h | .enum _ _ _, .wstr, h | .enum _ _ _, .seq _, h | .enum _ _ _, .arr _ _, h | .enum _ _ _, .struct _ _, h | .enum _ _ _, .union _ _, h => by simp [Ty.beq] at h
-  | .seq _, .prim _, h | .seq _, .str, h | .seq _, .wstr, h | .seq _, .enum _ _ _, h | .seq _, .arr _ _, h | .seq _, .struct _ _, h | .seq _, .union _ _, h => by simp [Ty.beq] at h
-  | .arr _ _, .prim _, h | .arr _ _, .str, h | .arr _ _, .wstr, h | .arr _ _, .enum _ _ _, h | .arr _ _, .seq _, h | .arr _ _, .struct _ _, h | .arr _ _, .union _ _, h => by simp [Ty.beq] at h
-  | .struct _ _, .prim _, h | .struct _ _, .str, h | .struct _ _, .wstr, h | .struct _ _, .enum _ _ _, h | .struct _ _, .seq _, h | .struct _ _, .arr _ _, h | .struct _ _, .union _ _, h => by simp [Ty.beq] at h
-  | .union _ _, .prim _, h | .union _ _, .str, h | .union _ _, .wstr, h | .union _ _, .enum _ _ _, h | .union _ _, .seq _, h | .union _ _, .arr _ _, h | .union _ _, .struct _ _, h => by simp [Ty.beq] at h
+  | .union a d bs, .union a' d' bs', h => by
+    simp only [Ty.beq, Bool.and_eq_true, beq_iff_eq] at h; rw [h.1.1, h.1.2, Bs.beq_eq bs bs' h.2]
+  | .prim _, .str, h | .prim _, .wstr, h | .prim _, .enum _ _ _, h | .prim _, .seq _, h | .prim _, .arr _ _, h | .prim _, .struct _ _, h | .prim _, .union _ _ _, h => by simp [Ty.beq] at h
+  | .str, .prim _, h | .str, .wstr, h | .str, .enum _ _ _, h | .str, .seq _, h | .str, .arr _ _, h | .str, .struct _ _, h | .str, .union _ _ _, h => by simp [Ty.beq] at h
+  | .wstr, .prim _, h | .wstr, .str, h | .wstr, .enum _ _ _, h | .wstr, .seq _, h | .wstr, .arr _ _, h | .wstr, .struct _ _, h | .wstr, .union _ _ _, h => by simp [Ty.beq] at h
+  | .enum _ _ _, .prim _, h | .enum _ _ _, .str, h | .enum _ _ _, .wstr, h | .enum _ _ _, .seq _, h | .enum _ _ _, .arr _ _, h | .enum _ _ _, .struct _ _, h | .enum _ _ _, .union _ _ _, h => by simp [Ty.beq] at h
+  | .seq _, .prim _, h | .seq _, .str, h | .seq _, .wstr, h | .seq _, .enum _ _ _, h | .seq _, .arr _ _, h | .seq _, .struct _ _, h | .seq _, .union _ _ _, h => by simp [Ty.beq] at h
+  | .arr _ _, .prim _, h | .arr _ _, .str, h | .arr _ _, .wstr, h | .arr _ _, .enum _ _ _, h | .arr _ _, .seq _, h | .arr _ _, .struct _ _, h | .arr _ _, .union _ _ _, h => by simp [Ty.beq] at h
+  | .struct _ _, .prim _, h | .struct _ _, .str, h | .struct _ _, .wstr, h | .struct _ _, .enum _ _ _, h | .struct _ _, .seq _, h | .struct _ _, .arr _ _, h | .struct _ _, .union _ _ _, h => by simp [Ty.beq] at h
+  | .union _ _ _, .prim _, h | .union _ _ _, .str, h | .union _ _ _, .wstr, h | .union _ _ _, .enum _ _ _, h | .union _ _ _, .seq _, h | .union _ _ _, .arr _ _, h | .union _ _ _, .struct _ _, h => by simp [Ty.beq] at h
 theorem Ms.beq_eq : (a b : Ms) → Ms.beq a b = true → a = b
   | .nil, .nil, _ => rfl
   | .cons i o m t r, .cons i' o' m' t' r', h => by
@@ -50,7 +50,7 @@ theorem Ty.beq_refl : (a : Ty) → Ty.beq a a = true
   | .seq a => by simp only [Ty.beq]; exact Ty.beq_refl a
   | .arr a n => by simp only [Ty.beq, beq_self_eq_true, Bool.true_and]; exact Ty.beq_refl a
   | .struct x ms => by simp only [Ty.beq, beq_self_eq_true, Bool.true_and]; exact Ms.beq_refl ms
-  | .union d bs => by simp only [Ty.beq, beq_self_eq_true, Bool.true_and]; exact Bs.beq_refl bs
+  | .union a d bs => by simp only [Ty.beq, beq_self_eq_true, Bool.true_and]; exact Bs.beq_refl bs
 theorem Ms.beq_refl : (a : Ms) → Ms.beq a a = true
   | .nil => by simp [Ms.beq]
   | .cons i o m t r => by
@@ -72,7 +72,7 @@ theorem KTy.beq_refl : (a : KTy) → KTy.beq a a = true
   | .seq a => by simp only [KTy.beq]; exact KTy.beq_refl a
   | .arr a n => by simp only [KTy.beq, beq_self_eq_true, Bool.true_and]; exact KTy.beq_refl a
   | .struct x ms => by simp only [KTy.beq, beq_self_eq_true, Bool.true_and]; exact KMs.beq_refl ms
-  | .union d bs => by simp only [KTy.beq, beq_self_eq_true, Bool.true_and]; exact Bs.beq_refl bs
+  | .union a d bs => by simp only [KTy.beq, beq_self_eq_true, Bool.true_and]; exact Bs.beq_refl bs
 theorem KMs.beq_refl : (a : KMs) → KMs.beq a a = true
   | .nil => by simp [KMs.beq]
   | .cons i o m k t r => by
@@ -142,7 +142,7 @@ theorem de_needs4 (cfg : Cfg) (ver : Ver) (e : Endian) (t : Ty) (ht : needs4 t =
   | enum _ _ _ => simp [needs4] at ht
   | arr _ _ => simp [needs4] at ht
   | struct _ _ => simp [needs4] at ht
-  | union _ _ => simp [needs4] at ht
+  | union _ _ _ => simp [needs4] at ht
 
 theorem deF_readerLonger (cfg : Cfg) (ver : Ver) (e : Endian) : (msr msw : Ms) → (fs : List Val) →
     msr.readerLonger msw = true → wfFs cfg ver msw fs = true → maxSizeMs msw fs < 2 ^ 32 →
